@@ -37,7 +37,7 @@ NAMED = z3.Function("NAMED", z3.StringSort(), z3.IntSort())
 RANK = z3.Function("RANK", z3.IntSort(), z3.IntSort())  # stack-value trees are built bottom-up: well founded
 
 MAX_UINT64 = 2 ** 64 - 1
-ZERO_ADDRESS = "AAAAAAAAAAAAAAAAAAAAAAAAAAAAAAAAAAAAAAAAAAAAEVAL4QAJS7JHB4"  # the Algorand zero address (spec side)
+ZERO_ADDRESS = "AAAAAAAAAAAAAAAAAAAAAAAAAAAAAAAAAAAAAAAAAAAAAAAAAAAAY5HFKQ"  # the Algorand zero address: 32 zero bytes + checksum
 
 # named integer constants the assembler accepts for `int` (TypeEnum and OnCompletion names)
 NAMED_CONSTANTS = {
@@ -84,8 +84,24 @@ def addr_inj(s: Any) -> Any:
     return ADDRDECODE(ADDRCODE(s)) == s
 
 
+_AX_CACHE: dict = {}
+_AX_KEYS = ("F:KnownStackValue", "F:Int.", "F:PushInt.", "F:Txn.", "F:Gtxn.", "F:Gtxns.", "F:Global.", "F:Addr.", "L.len",
+            "L.elem:Int", "V:Instruction")
+
+
 def known_sv_axioms(ex: Any, st: Any, n: VRef) -> List[Any]:
-    """Instance of the semantic axioms for one KnownStackValue node (and its instruction)."""
+    """Instance of the semantic axioms for one KnownStackValue node (cached per node term, visit and heap)."""
+    v = st.ghost.get("v")
+    key = (n.term.get_id(), v.term.get_id() if v is not None else None,
+           tuple(sorted((k, a.get_id()) for k, a in st.heap.items() if a is not None and k.startswith(_AX_KEYS))))
+    hit = _AX_CACHE.get(key)
+    if hit is None:
+        hit = _known_sv_axioms(ex, st, n)
+        _AX_CACHE[key] = hit
+    return hit
+
+
+def _known_sv_axioms(ex: Any, st: Any, n: VRef) -> List[Any]:
     ct = class_table()
     K = ct.cls("KnownStackValue")
     out: List[Any] = []
@@ -157,7 +173,8 @@ def known_sv_axioms(ex: Any, st: Any, n: VRef) -> List[Any]:
     Addr = ct.cls("Addr")
     ad, _ = ex.read_field(VRef(it, Addr, ex), Addr, "_addr", st2)
     out.append(z3.Implies(cls_is(ex, it, "Addr"),
-                          z3.And(nargs == 0, VAL(vt, it, 0) == ADDRCODE(ad.term), addr_inj(ad.term))))
+                          z3.And(nargs == 0, VAL(vt, it, 0) == ADDRCODE(ad.term), addr_inj(ad.term),
+                                 z3.Length(ad.term) == 58, z3.Not(z3.Contains(ad.term, z3.StringVal("_"))))))
     out.append(addr_inj(z3.StringVal(ZERO_ADDRESS)))
     # uint64 range of the integer fields used by the properties
     for fname in ("Fee", "GroupIndex", "TypeEnum", "OnCompletion", "ApplicationID"):
@@ -218,3 +235,30 @@ def gidx(v: Any) -> Any:
 
 def gsize(v: Any) -> Any:
     return VInt(GSIZE(v.term))
+
+
+def const_addr_ins_axioms(ex: Any, st: Any, it: Any, vt: Any) -> List[Any]:
+    """value pushed by `addr X`, `global ZeroAddress`, `global CreatorAddress` (instruction-level instance)"""
+    ct = class_table()
+    out: List[Any] = []
+    Global, Addr = ct.cls("Global"), ct.cls("Addr")
+    f_gl, _ = ex.read_field(VRef(it, Global, ex), Global, "_field", st)
+    out.append(z3.Implies(z3.And(cls_is(ex, it, "Global"), cls_is(ex, f_gl.term, "ZeroAddress")),
+                          VAL(vt, it, 0) == ADDRCODE(z3.StringVal(ZERO_ADDRESS))))
+    out.append(z3.Implies(z3.And(cls_is(ex, it, "Global"), cls_is(ex, f_gl.term, "CreatorAddress")),
+                          VAL(vt, it, 0) == CREATOR(vt)))
+    ad, _ = ex.read_field(VRef(it, Addr, ex), Addr, "_addr", st)
+    out.append(z3.Implies(cls_is(ex, it, "Addr"), z3.And(VAL(vt, it, 0) == ADDRCODE(ad.term), addr_inj(ad.term),
+                                                       z3.Length(ad.term) == 58, z3.Not(z3.Contains(ad.term, z3.StringVal("_"))))))   # assembler-valid literal
+    out.append(addr_inj(z3.StringVal(ZERO_ADDRESS)))
+    return out
+
+
+def addr_literal_axioms(ex: Any, st: Any, ins: VRef) -> List[Any]:
+    """assembler-valid `addr` literal: 58 base32 characters (in particular no '_', which every marker token contains)"""
+    A = class_table().cls("Addr")
+    ad, _ = ex.read_field(VRef(ins.term, A, ex), A, "_addr", st)
+    return [z3.Length(ad.term) == 58, z3.Not(z3.Contains(ad.term, z3.StringVal("_")))]
+
+
+ON_TOUCH.setdefault("Addr", []).append(addr_literal_axioms)
